@@ -1,4 +1,4 @@
-(* C14 phase 2: agreement of the two reader models on modules without blackbox instances (part A6) *)
+(* C14 phase 2: agreement of the two reader models on the documented subset (part A6) *)
 From Coq Require Import Ascii.
 From stdpp Require Import strings gmap sets pretty.
 From CG Require Import Model.FastVerilog Proofs.FastVerilogProofs Gen.Gen_fastv.
